@@ -141,6 +141,10 @@ class TransientFault(TimeoutError):
     """an OSError subclass: what a collision checker talking to a simulator raises on a hiccup"""
 
 
+class Interrupt(BaseException):
+    """not an Exception: what `except Exception` in user code would let through (cf. KeyboardInterrupt)"""
+
+
 class Env:
     """Callbacks of one run. `fault` = None or dict(target, kind, place, k / region)."""
 
@@ -171,6 +175,10 @@ class Env:
             raise Fault("injected")
         if kind == "oserror":
             raise TransientFault("injected transient failure")
+        if kind == "baseexc":
+            raise Interrupt("injected BaseException")
+        if kind == "kbd":
+            raise KeyboardInterrupt()
         if kind == "none":
             return None
         if kind == "int":
@@ -255,7 +263,7 @@ def run_scenario(sc, fault=None, as_false=False, with_distance=False):
             p = RRTConnect(sc["step"], sc["bias"], pd, cfg)
         else:
             p = PRM(sc["prm_timeout"], sc["step"], pd, cfg)
-    except (Fault, TransientFault):
+    except (Fault, TransientFault, Interrupt, KeyboardInterrupt):
         raise
     except Exception as e:  # noqa: BLE001
         return env, [(str(e), [], [])], space
@@ -275,7 +283,7 @@ def run_scenario(sc, fault=None, as_false=False, with_distance=False):
                 calls.append(("ok", [[bits(c) for c in flatten(s, [])] for s in states], states))
             else:
                 raise ValueError(op)
-        except (Fault, TransientFault):
+        except (Fault, TransientFault, Interrupt, KeyboardInterrupt):
             raise
         except Exception as e:  # planning errors arrive as plain Exception(text)
             calls.append((str(e), [], []))
@@ -506,7 +514,7 @@ def wrappers(cases, rep):
 
 def c20(inp, rep):
     kmax = inp["k_max"]
-    kinds = ["raise", "none", "int", "str", "oserror"]
+    kinds = ["raise", "none", "int", "str", "oserror", "baseexc", "kbd"]
     for sc in inp["scenarios"]:
         # fault region: the first obstacle predicate's neighbourhood if any, else around the goal
         region = (sc["obstacles"] or sc["goal"]["preds"])[0]
@@ -535,6 +543,8 @@ def c20(inp, rep):
                 ref_res = [c[0] for c in ref_calls]
                 ref_bits = [c[1] for c in ref_calls]
                 for kind in kinds:
+                    if light and kind in ("baseexc", "kbd") and (place.get("k", 0) >= 2 or with_d or (kind == "kbd" and place["place"] == "kth")):
+                        continue  # quick tier: the BaseException kinds on the region faults and the first calls
                     fault = dict(place, target=target, kind=kind)
                     rep.count("fault_runs")
                     if with_d:
@@ -542,7 +552,7 @@ def c20(inp, rep):
                     det = {"scenario": {k: sc[k] for k in ("id", "variant", "planner", "seed")}, "fault": {"target": target, "kind": kind, "placement": place, "goal_implements_distance_goal": with_d}}
                     try:
                         env, calls, _ = run_scenario(sc, fault, with_distance=with_d)
-                    except (Fault, TransientFault):
+                    except (Fault, TransientFault, Interrupt, KeyboardInterrupt):
                         rep.violate("%s|%s|exception-escaped" % (sc["planner"], target), "the injected Python exception propagated out of the planner call instead of being treated as False", det)
                         continue
                     except Exception as e:  # noqa: BLE001
@@ -557,7 +567,7 @@ def c20(inp, rep):
                         rep.count("fault_runs_with_path")
                     cls = "%s|%s-callback|%s" % (sc["planner"], target, kind) + ("|goal-with-distance_goal" if with_d else "")
                     if res != ref_res or pbits_all != ref_bits:
-                        rep.violate(cls + "|differs-from-returning-False", "a %s callback that %s does not behave like one returning False (results %r vs %r)" % (target, {"raise": "raises", "none": "returns None", "int": "returns 1", "str": "returns 'x'", "oserror": "raises TimeoutError"}[kind], res, ref_res), det)
+                        rep.violate(cls + "|differs-from-returning-False", "a %s callback that %s does not behave like one returning False (results %r vs %r)" % (target, {"raise": "raises", "none": "returns None", "int": "returns 1", "str": "returns 'x'", "oserror": "raises TimeoutError", "baseexc": "raises a BaseException subclass", "kbd": "raises KeyboardInterrupt"}[kind], res, ref_res), det)
                         continue
                     if env.valid_calls != ref_env.valid_calls or env.valid_hash != ref_env.valid_hash:
                         rep.count("traces_differing_from_returning_False")  # information only: the statement is about the result
